@@ -4,7 +4,9 @@
    Vocabulary (Model/LogFile.v, Proofs/LogFileW.v):
      run_history v m prefix fs0 rs   the directory after the runs [rs] of the writer (each run: start,
                                      events, sender dropped) over the initial directory [fs0];
-                                     [v] = post_fix is the code as it is now, [m] the build profile
+                                     [v] = post b18: D14 repaired; b18 = false is the heap order of /repo
+                                     before the repair of D18 (post_fix), b18 = true after it (fix18);
+                                     every positive theorem holds for both.  [m] = the build profile
      hist_ok prefix fs0 MW WA rs     the hypotheses: live names of [fs0] are distinct and its log
                                      files total less than 2^64 bytes; in every run both byte limits
                                      and every line size are below 2^63, max_write_bytes <= MW,
@@ -18,16 +20,16 @@ From SV Require Import Base.Bytes Model.LogFile Proofs.LogFileP Proofs.LogFileW 
 (* C19.1  len_is_sum -- PrefixFileSet.len equals the sum of the lengths in the heap after every
    sequence of API calls (debug build: whenever the call returns), ... *)
 Theorem c19_len_is_sum :
-  forall prefix ops s, set_ok (snd s) ->
-    res_ok (fun s' => set_ok (snd s')) (run_set post_fix Debug prefix s ops).
+  forall prefix b18 ops s, set_ok (snd s) ->
+    res_ok (fun s' => set_ok (snd s')) (run_set (post b18) Debug prefix s ops).
 Proof. exact len_is_sum_debug. Qed.
 
 (* ... and inside the writer, at every event boundary of every history, in both build profiles:
    len = total size of the closed live log files, LogFile.len = size of the current file. *)
 Theorem c19_writer_len_is_sum :
-  forall prefix m fs0 MW WA rs r, hist_ok prefix fs0 MW WA (rs ++ [r]) ->
+  forall prefix b18 m fs0 MW WA rs r, hist_ok prefix fs0 MW WA (rs ++ [r]) ->
   exists fsA rest cf w,
-    run_history post_fix m prefix fs0 rs = ROk fsA /\ run_one post_fix m prefix fsA r = ROk w /\
+    run_history (post b18) m prefix fs0 rs = ROk fsA /\ run_one (post b18) m prefix fsA r = ROk w /\
     w_fs w = rest ++ [cf] /\ f_name cf = w_cur w /\ f_alive cf = true /\
     slen (w_set w) = sumN (map f_size (logs prefix rest)) /\ w_len w = f_size cf.
 Proof. exact writer_len_is_sum. Qed.
@@ -35,8 +37,8 @@ Proof. exact writer_len_is_sum. Qed.
 (* C19.2  writer_never_panics -- no arithmetic overflow, no unwrap on None/Err, no unreachable!(),
    for every history, in debug and release builds. *)
 Theorem c19_writer_never_panics :
-  forall prefix m fs0 MW WA rs, hist_ok prefix fs0 MW WA rs ->
-  exists fs', run_history post_fix m prefix fs0 rs = ROk fs'.
+  forall prefix b18 m fs0 MW WA rs, hist_ok prefix fs0 MW WA rs ->
+  exists fs', run_history (post b18) m prefix fs0 rs = ROk fs'.
 Proof. exact writer_never_panics. Qed.
 
 (* C19.3  every_event_once_in_order -- the files the writer ever created, in creation order
@@ -44,18 +46,18 @@ Proof. exact writer_never_panics. Qed.
    nothing lost, duplicated, split or reordered, no empty file; what is on disk is the
    sub-sequence of live files; the original entries are unchanged except for deleted log files. *)
 Theorem c19_every_event_once_in_order :
-  forall prefix m fs0 MW WA rs, hist_ok prefix fs0 MW WA rs ->
+  forall prefix b18 m fs0 MW WA rs, hist_ok prefix fs0 MW WA rs ->
   exists fs' old created,
-    run_history post_fix m prefix fs0 rs = ROk fs' /\ fs' = old ++ created /\ Kills prefix fs0 old /\
+    run_history (post b18) m prefix fs0 rs = ROk fs' /\ fs' = old ++ created /\ Kills prefix fs0 old /\
     concat (map f_lines created) = history_lines rs /\
     Forall (fun f => f_lines f <> []) created.
 Proof. exact every_event_once_in_order. Qed.
 
 (* the current file is live, is the last one, and ends with the last accepted line *)
 Theorem c19_current_file_has_last_event :
-  forall prefix m fs0 MW WA rs r, hist_ok prefix fs0 MW WA (rs ++ [r]) ->
+  forall prefix b18 m fs0 MW WA rs r, hist_ok prefix fs0 MW WA (rs ++ [r]) ->
   exists fsA rest cf w p,
-    run_history post_fix m prefix fs0 rs = ROk fsA /\ run_one post_fix m prefix fsA r = ROk w /\
+    run_history (post b18) m prefix fs0 rs = ROk fsA /\ run_one (post b18) m prefix fsA r = ROk w /\
     w_fs w = rest ++ [cf] /\ f_alive cf = true /\
     history_lines (rs ++ [r]) = p ++ f_lines cf /\ f_lines cf <> [].
 Proof. exact current_file_has_last_event. Qed.
@@ -64,9 +66,9 @@ Proof. exact current_file_has_last_event. Qed.
    one (oversized) line; every line in it was written at most max_write_age after the file's
    creation. *)
 Theorem c19_file_bounds :
-  forall prefix m fs0 MW WA rs, hist_ok prefix fs0 MW WA rs ->
+  forall prefix b18 m fs0 MW WA rs, hist_ok prefix fs0 MW WA rs ->
   exists fs' old created,
-    run_history post_fix m prefix fs0 rs = ROk fs' /\ fs' = old ++ created /\ length old = length fs0 /\
+    run_history (post b18) m prefix fs0 rs = ROk fs' /\ fs' = old ++ created /\ length old = length fs0 /\
     Forall (fun f =>
       (f_size f <= MW \/ length (f_lines f) = 1%nat) /\
       Forall (fun l => l_time l - f_created f <= WA) (f_lines f)) created.
@@ -76,9 +78,9 @@ Proof. exact file_bounds. Qed.
    earlier runs and foreign files with the prefix included) total at most
    max(max_keep, max_write, last event); right after a start at most max_keep + start line. *)
 Theorem c19_total_bound :
-  forall prefix m fs0 MW WA rs r, hist_ok prefix fs0 MW WA (rs ++ [r]) ->
+  forall prefix b18 m fs0 MW WA rs r, hist_ok prefix fs0 MW WA (rs ++ [r]) ->
   exists fsA w,
-    run_history post_fix m prefix fs0 rs = ROk fsA /\ run_one post_fix m prefix fsA r = ROk w /\
+    run_history (post b18) m prefix fs0 rs = ROk fsA /\ run_one (post b18) m prefix fsA r = ROk w /\
     (r_events r = [] ->
        total_size post_fix prefix (w_fs w) <= max_keep_bytes (r_cfg r) + l_size (r_start r)) /\
     (forall ev, last (r_events r) ev = ev -> r_events r <> [] ->
@@ -88,10 +90,10 @@ Proof. exact total_bound. Qed.
 
 (* the form of the property text, for the configurations of its quantifier (max_keep >= max_write) *)
 Theorem c19_total_bound_keep_plus_one_event :
-  forall prefix m fs0 MW WA rs r, hist_ok prefix fs0 MW WA (rs ++ [r]) ->
+  forall prefix b18 m fs0 MW WA rs r, hist_ok prefix fs0 MW WA (rs ++ [r]) ->
   max_write_bytes (r_cfg r) <= max_keep_bytes (r_cfg r) ->
   exists fsA w,
-    run_history post_fix m prefix fs0 rs = ROk fsA /\ run_one post_fix m prefix fsA r = ROk w /\
+    run_history (post b18) m prefix fs0 rs = ROk fsA /\ run_one (post b18) m prefix fsA r = ROk w /\
     total_size post_fix prefix (w_fs w) <= max_keep_bytes (r_cfg r) + l_size (last (r_events r) (r_start r)).
 Proof. exact total_bound_quantifier. Qed.
 
@@ -105,10 +107,10 @@ Proof. exact keep_below_write_refuted. Qed.
    (age counted from the time the set knows: the rotation time, or the mtime found at start-up),
    and the set holds exactly the closed live log files. *)
 Theorem c19_age_bound :
-  forall prefix m fs0 MW WA rs r d, hist_ok prefix fs0 MW WA (rs ++ [r]) ->
+  forall prefix b18 m fs0 MW WA rs r d, hist_ok prefix fs0 MW WA (rs ++ [r]) ->
   max_keep_age (r_cfg r) = Some d -> r_events r <> [] ->
   exists fsA rest cf w,
-    run_history post_fix m prefix fs0 rs = ROk fsA /\ run_one post_fix m prefix fsA r = ROk w /\
+    run_history (post b18) m prefix fs0 rs = ROk fsA /\ run_one (post b18) m prefix fsA r = ROk w /\
     w_fs w = rest ++ [cf] /\
     map p_name (entries (w_set w)) = map f_name (logs prefix rest) /\
     Forall (fun e => l_time (last (r_events r) (r_start r)) - d <= p_mtime e) (entries (w_set w)).
@@ -116,9 +118,9 @@ Proof. exact age_bound. Qed.
 
 (* C19.7  entries that are not regular files with the prefix are never touched *)
 Theorem c19_other_files_untouched :
-  forall prefix m fs0 MW WA rs, hist_ok prefix fs0 MW WA rs ->
+  forall prefix b18 m fs0 MW WA rs, hist_ok prefix fs0 MW WA rs ->
   exists fs' old created,
-    run_history post_fix m prefix fs0 rs = ROk fs' /\ fs' = old ++ created /\
+    run_history (post b18) m prefix fs0 rs = ROk fs' /\ fs' = old ++ created /\
     Forall2 (fun f f' => is_log_file post_fix prefix f = false -> f' = f) fs0 old.
 Proof. exact other_files_untouched. Qed.
 
@@ -146,34 +148,50 @@ Theorem c19_budget_underflow_refuted :
 Proof. exact budget_underflow_refuted. Qed.
 
 (* C19.8b  survivors_are_suffix -- deletion is oldest-first.  Proved for ONE run over ANY
-   directory whose log files have strictly increasing mtimes (in list order) not after the start,
-   under a strictly increasing clock, for every tie schedule: the closed files the set still holds
-   (= the closed live log files on disk, same order) are a suffix of
-   (log files found at start-up) ++ (files closed by this run).
+   directory whose log files are strictly sorted in the heap order of the variant
+     b18 = false (mtime only, /repo before the repair of D18): strictly increasing mtimes,
+     b18 = true  (mtime, then path): increasing (mtime, path) -- EQUAL MTIMES ALLOWED,
+   and not younger than the start, under a strictly increasing clock, for every tie schedule: the
+   closed files the set still holds (= the closed live log files on disk, same order) are a suffix
+   of (log files found at start-up) ++ (files closed by this run).
    FULL STATEMENT (not proved, hence the name): the same for whole histories, i.e.
      forall rs, hist_ok .. rs -> strictly increasing clock over all runs -> fs0 sorted ->
        map f_alive (log-candidate files of the final directory) = repeat false j ++ repeat true k.
-   GAP: that the hypothesis "log files have strictly increasing mtimes" holds again when the next
-   run starts (mtime of a file = time of its last line) is not derived from the previous run; and
-   with EQUAL mtimes the statement is false (c19_equal_mtimes_hole_refuted). *)
+   GAP: that the directory is again sorted in the heap order when the next run starts is not
+   derived from the previous run.  After D18 this needs that the names of the files of one second
+   increase with creation, which fails when a "-n" suffix is reused after a deletion or n reaches
+   10 ("-10" < "-2" as text) while the mtimes of those files are equal; before D18 it is simply
+   false with equal mtimes (c19_equal_mtimes_hole_refuted). *)
 Theorem c19_survivors_are_suffix_partial :
-  forall prefix m MW WA fsA r,
+  forall prefix b18 m MW WA fsA r,
   dir_ok prefix fsA -> wf_run MW WA r ->
-  StronglySorted N.lt (map f_mtime (logs prefix fsA)) ->
+  StronglySorted (fun f g => heap_leb (post b18) (entry_of g) (entry_of f) = false) (logs prefix fsA) ->
   Forall (fun f => f_mtime f <= l_time (r_start r)) (logs prefix fsA) ->
   inc (l_time (r_start r)) (r_events r) ->
   exists w rest cf pushed pre,
-    run_one post_fix m prefix fsA r = ROk w /\ w_fs w = rest ++ [cf] /\
+    run_one (post b18) m prefix fsA r = ROk w /\ w_fs w = rest ++ [cf] /\
     map p_name (entries (w_set w)) = map f_name (logs prefix rest) /\
     map entry_of (logs prefix fsA) ++ pushed = pre ++ entries (w_set w).
 Proof. exact survivors_are_suffix_run. Qed.
 
-(* C19.9  equal mtimes: the heap may delete the newer of two equally old files, which leaves a
-   hole in the log (candidate finding, not one of D1-D15) *)
+(* C19.9  D18: with equal mtimes the heap of /repo (order by mtime only) may delete the newer of
+   two equally old files, which leaves a hole in the log ... *)
 Theorem c19_equal_mtimes_hole_refuted :
   alive_flags (run_history post_fix Debug pfx [fA; fB] (h_tie [1%nat])) = [true; false; true] /\
   alive_flags (run_history post_fix Debug pfx [fA; fB] (h_tie [])) = [false; true; true].
 Proof. exact equal_mtimes_hole_refuted. Qed.
+
+(* ... with ties broken by path the older file goes, whatever the schedule; and that directory
+   satisfies the sortedness hypothesis of c19_survivors_are_suffix_partial for b18 = true only *)
+Theorem c19_equal_mtimes_fixed :
+  alive_flags (run_history fix18 Debug pfx [fA; fB] (h_tie [1%nat])) = [false; true; true] /\
+  alive_flags (run_history fix18 Debug pfx [fA; fB] (h_tie [])) = [false; true; true] /\
+  alive_flags (run_history fix18 Debug pfx [fA; fB] (h_tie [7%nat; 3%nat])) = [false; true; true].
+Proof. exact equal_mtimes_fixed. Qed.
+
+Example c19_equal_mtimes_sorted_nonvacuous :
+  heap_leb fix18 (entry_of fB) (entry_of fA) = false /\ heap_leb post_fix (entry_of fB) (entry_of fA) = true.
+Proof. exact equal_mtimes_sorted. Qed.
 
 (* non-vacuity: the hypotheses hold for a concrete history with a pre-existing file *)
 Example c19_nonvacuous :
@@ -208,3 +226,4 @@ Print Assumptions c19_age_delete_underflow_refuted.
 Print Assumptions c19_budget_underflow_refuted.
 Print Assumptions c19_survivors_are_suffix_partial.
 Print Assumptions c19_equal_mtimes_hole_refuted.
+Print Assumptions c19_equal_mtimes_fixed.
